@@ -97,3 +97,24 @@ From PFG Require Import GenLoops.
 Theorem gen_pit_indices_eq : forall ds, gen_pit_indices ds = pits_of ds.
 Proof. exact GenPitIndicesEq.gen_pit_indices_eq. Qed.
 Print Assumptions gen_pit_indices_eq.
+
+(* the decoders regenerated from the source (generated/GenCodec.v, tools/gen_codec.py) ARE the models: network, pits, size *)
+From PF Require Import GenCodecFromEq GenCodecXYEq.
+From PFG Require Import GenCodec.
+Theorem gen_d8_from_array_eq : forall nrow ncol flw, length flw = (nrow * ncol)%nat ->
+  gen_d8_from_array (Z.of_nat nrow, Z.of_nat ncol) flw =
+  (d8_from_array nrow ncol flw, pits_of (d8_from_array nrow ncol flw), Z.of_nat (nvalid_of (d8_from_array nrow ncol flw))).
+Proof. exact GenCodecFromEq.gen_d8_from_array_eq. Qed.
+Print Assumptions gen_d8_from_array_eq.
+Theorem gen_ldd_from_array_eq : forall nrow ncol flw, length flw = (nrow * ncol)%nat ->
+  gen_ldd_from_array (Z.of_nat nrow, Z.of_nat ncol) flw =
+  (ldd_from_array nrow ncol flw, pits_of (ldd_from_array nrow ncol flw), Z.of_nat (nvalid_of (ldd_from_array nrow ncol flw))).
+Proof. exact GenCodecFromEq.gen_ldd_from_array_eq. Qed.
+Print Assumptions gen_ldd_from_array_eq.
+Theorem gen_nextxy_from_array_eq : forall nrow ncol nextx nexty,
+  length nextx = (nrow * ncol)%nat -> length nexty = (nrow * ncol)%nat ->
+  gen_nextxy_from_array (Z.of_nat nrow, Z.of_nat ncol) (nextx, nexty) =
+  (nextxy_from_array nrow ncol nextx nexty, pits_of (nextxy_from_array nrow ncol nextx nexty),
+   Z.of_nat (nvalid_of (nextxy_from_array nrow ncol nextx nexty))).
+Proof. exact GenCodecXYEq.gen_nextxy_from_array_eq. Qed.
+Print Assumptions gen_nextxy_from_array_eq.
